@@ -29,6 +29,56 @@ def loop_blocks(body, header):
     return out
 
 
+def combinator_validation(chk, fb, b, step, check, closure_args, closure_calls):
+    """Idiom `idxs.clone().try_for_each(|i| check(i, n, ..))?` before any differentiation work.  Decided on the ordered
+    trace of every path of the driver: the first event that differentiates is preceded by the `?`-success of a
+    try_for_each over a clone of the index iterator whose closure returns the check of its item against the number of
+    variables of the expression being differentiated; the differentiation consumes the same iterator."""
+    from analysis.interp import Interp, Policy, Sym, App, Closure, show
+    args = [Sym("p%d" % i) for i in range(1, b["arg_count"] + 1)]
+    ps = [p for p in Interp(fb, Policy()).run(b, args) if p.status != "unreachable"]
+    if any(p.status != "return" for p in ps):
+        return False
+    found = False
+    for p in ps:
+        validated = None      # (iterator term, bound term)
+        cloned = set()
+        for k, x in p.trace:
+            if k == "e" and x[0] == "call" and x[1] == "std::clone::Clone::clone":
+                cloned.add(show(x[2][0]))
+            if k == "d" and x[0] == "try" and x[2] == "ok" and isinstance(x[1], App) and x[1].fn == "std::iter::Iterator::try_for_each" and len(x[1].args) == 2 \
+                    and isinstance(x[1].args[1], Closure):
+                it, clo = x[1].args
+                cb = fb.bodies.get(clo.path)
+                if cb is None or show(it) not in cloned:
+                    continue
+                cps = [q for q in Interp(fb, Policy()).run(cb, [clo] + [Sym("item%d" % i) for i in range(1, cb["arg_count"])]) if q.status != "unreachable"]
+                if len(cps) == 1 and cps[0].status == "return" and isinstance(cps[0].result, App) and cps[0].result.fn == check \
+                        and len(cps[0].result.args) >= 2 and show(cps[0].result.args[0]) == "item1":
+                    validated = (show(it), cps[0].result.args[1])
+            is_step = k == "e" and x[0] == "call" and (x[1] == step or (x[1].startswith("std::iter::Iterator::") and any(
+                isinstance(a, Closure) and closure_calls(a.path, step) for a in x[2])))
+            if is_step:
+                found = True
+                if validated is None:
+                    chk.violation("R09.1", "validate-first", "differentiation work (%s) starts before all indices were validated" % x[1], loc(x[3]))
+                    return True
+                ex = x[2][1] if x[1] != step else x[2][1]
+                bound_ok = show(validated[1]) == "core::slice::<impl [T]>::len(expression::Express::var_names(%s))" % show(ex)
+                same_it = show(x[2][0]) == validated[0] if x[1] != step else True
+                if not bound_ok:
+                    chk.violation("R09.1", "validate-first", "bound of the index check is not the number of variables of the expression being differentiated: %s vs %s" % (show(validated[1])[:80], show(ex)[:60]), loc(x[3]))
+                    return True
+                if not same_it:
+                    chk.violation("R09.1", "validate-first", "differentiation iterates something else than the validated indices: %s vs %s" % (show(x[2][0])[:60], validated[0][:60]), loc(x[3]))
+                    return True
+                break
+    if found:
+        chk.ok("R09.1", "validate-all-then-differentiate", "try_for_each(check)? precedes the differentiation on every path (%d paths)" % len(ps), loc(b["span"]))
+        chk.sample({"driver": b["path"], "idiom": "try_for_each(check)? ; try_fold(step)"})
+    return found
+
+
 def run(ctx):
     chk, fb = ctx.check, ctx.fb
     chk.rule("R09.1", "validate all indices (clone of the iterator, `?`, bound = #variables) in a loop whose exit edge dominates the differentiation loop; check Ok => idx < n")
@@ -45,17 +95,39 @@ def run(ctx):
         return
     step, check = steps[0], checks[0]
     cg = CallGraph(fb)
-    drivers = [c for c in cg.callers_of(step) if fb.bodies[c].get("trait_default_of") or "Differentiate" in c]
+    # (a caller that is a closure stands for the function it is written in)
+    drivers = sorted({re.sub(r"(::\{closure#\d+\})+$", "", c) for c in cg.callers_of(step)})
+    drivers = [c for c in drivers if c in fb.bodies and (fb.bodies[c].get("trait_default_of") or "Differentiate" in c)]
     if len(drivers) != 1:
         chk.violation("R09.1", "anchor:driver", "expected exactly one Differentiate method calling the differentiation step, found %s" % drivers)
         return
     b = fb.bodies[drivers[0]]
     org = dom.Origins(b)
+    def closure_args(term):
+        """closures of the driver that are passed to this call (matched by the closure type's definition site)"""
+        out = []
+        for a in term["args"]:
+            ty = a.get("place", {}).get("ty", "") if a.get("k") in ("move", "copy") else a.get("ty", "")
+            for cp in fb.closures_of(b["path"]):
+                sp = fb.bodies[cp]["span"]
+                if "{closure@%s:%d:%d" % (sp["file"], sp["line"], sp["col"]) in (ty or ""):
+                    out.append(cp)
+        return out
+
+    def closure_calls(cp, target):
+        return any(mir.callee_path(t2) == target for _, t2 in mir.calls(fb.bodies[cp]))
     bd = dom.call_blocks(b, lambda p, t: p == step)
+    # the step may be applied by an iterator adaptor (try_fold / fold ...) through a closure
+    bd_adaptor = [(bi, t) for bi, t in mir.calls(b) if (t["func"].get("trait") == "std::iter::Iterator") and any(closure_calls(cp, step) for cp in closure_args(t))]
     bc = dom.call_blocks(b, lambda p, t: p == check)
+    if not bc and (bd or bd_adaptor):
+        if combinator_validation(chk, fb, b, step, check, closure_args, closure_calls):
+            bc = None
     heads = sorted({h for (_, h) in mir.back_edges(b)})
     backs = mir.back_edges(b)
-    if not bd or not bc:
+    if bc is None:
+        pass
+    elif not bd or not bc:
         if not bc:
             chk.violation("R09.1", "no-validation", "%s differentiates without validating the indices first" % b["path"], loc(b["span"]))
         return
@@ -65,7 +137,7 @@ def run(ctx):
         ls = [h for h, bl in loops.items() if bb in bl]
         return ls
     ok_all = True
-    for (dbb, dt) in bd:
+    for (dbb, dt) in (bd if bc is not None else []):
         l2 = loop_of(dbb)
         good = False
         why = []
@@ -160,7 +232,7 @@ def run(ctx):
     # ---- R09.2 funnel
     drv = drivers[0]
     allowed = {drv}
-    inner = [p for p in cg.callers_of(step) if p != drv]
+    inner = [p for p in cg.callers_of(step) if p != drv and not p.startswith(drv + "::{closure#")]
     for p in inner:
         # recursion through the inner derivative is part of the step itself
         if step in cg.reachable([p]) and p in cg.reachable([step]):
@@ -198,7 +270,7 @@ def run(ctx):
                 chk.ok("R09.3", "Ok return %d restores the variable list" % nok, term[:100], loc(st["span"]))
             else:
                 chk.violation("R09.3", "var-list:%d" % nok, "an Ok return of the inner derivative does not restore the antiderivative's variable list: returns %s" % term[:160], loc(st["span"]))
-    chk.floor("R09.3", "Ok returns of the inner derivative", nok, 2)
+    chk.floor("R09.3", "Ok returns of the inner derivative", nok, 1)
 
     # ---- R09.4 delegation chain as terms
     from analysis.interp import Interp, Policy, Sym, show
